@@ -111,7 +111,9 @@ def uncps(s):
 # ------------------------------------------------------------------------------------------------
 def aval(v):
     if isinstance(v, list):
-        return "+".join(cps(x) or "-" for x in v)
+        return "+".join(aval(x) for x in v)
+    if not isinstance(v, str):
+        return f"!{type(v).__name__}"        # not a string: never equal to anything the documented fold produces
     return cps(v) or "-"
 
 
